@@ -76,6 +76,31 @@ def Rec.prune (r : Rec) : Option Rec :=
   | none => none
   | some r' => if r'.groups.all (fun g => (g.begin : Int) != g.end_) then some r' else none
 
+/-- `prune()` of a recording, computed while replaying the recording calls: when a group is
+    closed with `discard`, its data and every group opened inside it are dropped on the spot.
+    Same data and same finished groups as `recOfToks` followed by `Rec.prune` (cross-checked by
+    the driver on every recording it sees); the only difference is that Go's `removeGroup`
+    also forgets unfinished groups that directly follow a removed one in the list — entries
+    every pass of the shrinker skips. -/
+def pruneGoT : List Tok → Rec → List (Nat × Nat) → Rec
+  | [], r, _ => r
+  | .w u :: ts, r, st => pruneGoT ts { r with data := r.data ++ [u] } st
+  | .opn l s :: ts, r, st =>
+      pruneGoT ts { r with groups := r.groups ++ [⟨l, s, r.data.length, -1, false⟩] } ((r.groups.length, r.data.length) :: st)
+  | .cls d :: ts, r, (i, b) :: st =>
+      if d then pruneGoT ts ⟨r.data.take b, r.groups.take i⟩ st
+      else pruneGoT ts { r with groups := r.groups.modify i fun g => { g with end_ := r.data.length } } st
+  | .cls _ :: ts, r, [] => pruneGoT ts r []
+  | .abort :: ts, r, st => pruneGoT ts r st.tail
+
+def prunedOfToks (ts : List Tok) : Rec := pruneGoT ts .empty []
+
+/-- the assertion at the end of `prune()`: no group is empty -/
+def Rec.noEmptyGroup (r : Rec) : Bool := r.groups.all fun g => (g.begin : Int) != g.end_
+
+/-- data and finished groups (what the shrinker looks at) -/
+def Rec.finished (r : Rec) : List UInt64 × List GI := (r.data, r.groups.filter fun g => g.end_ ≥ 0)
+
 /-- `without(data, groups...)`: cut the groups out, last first -/
 def without? (data : List UInt64) (groups : List GI) : Option (List UInt64) :=
   groups.reverse.foldlM (fun buf g => cut? buf g.begin g.end_) data
